@@ -11,8 +11,10 @@ pub use crate::coordinator::verif as coordinator;
 #[cfg(not(feature = "unsafe_graph"))]
 pub use crate::footprint_guard::verif as footprint_guard;
 pub use crate::scheduler::verif as scheduler;
+pub use crate::snapshot::verif as snapshot;
 pub use crate::snapshot_accum::verif as snapshot_accum;
 pub use crate::tick_patch::verif as tick_patch;
+pub use crate::warp_state::verif as warp_state;
 
 /// Controlled-scheduler seam for the claim counters in `parallel/exec.rs`.
 ///
